@@ -49,7 +49,7 @@ def required_cells(tier):
               "elif-after-taken-branch", "directive-continuation", "empty-group", "class:enum", "class:random",
               "class:stress", "table-compared", "via-cli", "non-utf8-bytes", "block-comment-in-directive", "two-platforms",
               "file-includes-itself", "null-directive", "benign-directive", "form-feed-and-other-non-line-breaks",
-              "crlf-line-ends", "crlf-with-continuation-in-directive"]
+              "crlf-line-ends", "crlf-with-continuation-in-directive", "malformed-directive-in-skipped-group"]
     return cells
 
 
@@ -128,6 +128,10 @@ BENIGN_DIRECTIVES = ["#", "  #", "# /* null directive */", "#pragma omp parallel
                      "#ident \"v1\"", "# pragma region x", "#pragma STDC FP_CONTRACT ON"]
 
 
+ODD_IN_DEAD_CODE = ["## heading", "##", "#@x", "#!/bin/sh", "#123", "#\"str\"", "#'c'", "#(", "#;", "#=", "#include", "#include <", "#define",
+                    "#if", "#elif", "#undef", "#ifdef", "#define 1x", "#if 1 +", "#if )(", "#line", "#unknown garbage ' \" (", "#pragma once"]
+
+
 def sprinkle(rng, body, p=0.2):
     """Insert directives that select nothing (null directive, #pragma, #line, #ident) between the items of a program,
     at every nesting level: a conforming preprocessor accepts them silently wherever they stand."""
@@ -135,6 +139,11 @@ def sprinkle(rng, body, p=0.2):
     for it in body:
         if rng.random() < p:
             out.append(["directive", rng.choice(BENIGN_DIRECTIVES)])
+        if rng.random() < p / 2:
+            # a skipped group may hold anything that looks like a directive: a preprocessor only reads its first word there
+            odd = rng.choice(ODD_IN_DEAD_CODE)
+            if not odd.startswith(("#if", "#elif", "#ifdef")):       # (conditionals nest even when skipped)
+                out.append(["chain", [["if", "0", [["code"], ["directive", odd], ["code"]]]]])
         if it[0] == "chain":
             out.append(["chain", [[kw, e, sprinkle(rng, sub, p)] for kw, e, sub in it[1]]])
         else:
@@ -205,6 +214,8 @@ def run_case(ctx, workdir, text, defines, r, cls, check_table=True, case=None):
         cells.add("null-directive")
     if re.search(r"^\s*#\s*(pragma|line|ident)", text, re.M):
         cells.add("benign-directive")
+    if re.search(r"^##|^#[@!(;=\"']|^#\d|^#(include|define|undef|line)\s*$|^#define 1x", text, re.M):
+        cells.add("malformed-directive-in-skipped-group")
     all_lines = set()
     for it in r.items:
         all_lines.update(it["lines"])
